@@ -160,7 +160,7 @@ func (x *Exec) judge() (viols []Viol, st Stats) {
 	}
 	for i := range x.recs {
 		b := sc.Jobs[i].Beh
-		if (b == BehCancelOK || b == BehCancelErr) && x.recs[i].end.Load() != 0 && x.recs[i].end.Load() < x.waitRet {
+		if (b == BehCancelOK || b == BehCancelErr || b == BehWaitDeadline) && !sc.Jobs[i].OtherCtx && x.recs[i].end.Load() != 0 && x.recs[i].end.Load() < x.waitRet {
 			// the body ended before Wait returned; cancel() returned inside it
 			cancelCertain = true
 		}
@@ -305,7 +305,7 @@ func (x *Exec) judge() (viols []Viol, st Stats) {
 		for i := 0; i < n; i++ {
 			for _, d := range sc.Jobs[i].Deps {
 				b := sc.Jobs[d].Beh
-				if ((b == BehCancelOK || b == BehCancelErr) && x.recs[d].end.Load() != 0) || dependsOnCanceller[d] {
+				if ((b == BehCancelOK || b == BehCancelErr || b == BehCancelGoexit || (b == BehWaitDeadline && !sc.Jobs[d].OtherCtx)) && x.recs[d].end.Load() != 0) || dependsOnCanceller[d] {
 					dependsOnCanceller[i] = true
 				}
 			}
